@@ -453,6 +453,10 @@ class Network(Cached):
         if not self.directed:
             edges = np.append(edges, edges[:, [1, 0]], axis=0)
 
+        #  List every link once (an undirected edge list may already contain
+        #  both directions, as the one returned by edge_list() does)
+        edges = np.unique(edges, axis=0)
+
         #  Create sparse adjacency matrix from edge list
         sp_A = sp.coo_matrix(
             (np.ones_like(edges.T[0]), tuple(edges.T)), shape=(N, N))
